@@ -42,6 +42,7 @@ def write_evidence(
     transitions = set()
     nontrivial_keys = set()
     all_keys = set()
+    cells = set()
     steps = 0
     for r in results:
         st = r.get("stats") or {}
@@ -51,6 +52,7 @@ def write_evidence(
         _merge_counts(opkinds, st.get("ops"))
         _merge_counts(statuses, r.get("status"))
         _merge_counts(known_hits, r.get("known"))
+        cells.update(st.get("cells") or [])
         states.update(st.get("states") or [])
         transitions.update(st.get("transitions") or [])
         hk = st.get("hist_key")
@@ -102,6 +104,9 @@ def write_evidence(
         "harness_errors": harness_errors[:5],
         "exhaustive": False,
     }
+    if cells:
+        cov["cells_judged"] = len(cells)
+        cov["cells"] = sorted(cells)
     if extra:
         cov.update(extra)
     ev = {
